@@ -633,6 +633,178 @@ fn interruption_storms(args: &Args) {
     out::count("interruption_storm_executions", n as i128);
 }
 
+/// A real signal (handler installed without SA_RESTART) delivered to the transferring thread while
+/// it is blocked in the kernel *between two fragments* of a transfer on a real stream socket or
+/// pipe. The interruption is not an outcome: the exact forms complete with every byte in order.
+#[cfg(not(miri))]
+fn signals_between_fragments(args: &Args) {
+    use std::io::{Read, Write};
+    use std::os::unix::net::UnixStream;
+    use std::sync::atomic::{AtomicU64, Ordering};
+    static HANDLED: AtomicU64 = AtomicU64::new(0);
+    extern "C" fn on_sig(_: libc::c_int) {
+        HANDLED.fetch_add(1, Ordering::SeqCst);
+    }
+    if args.shard().0 != 0 {
+        return;
+    }
+    // SAFETY: installing an async-signal-safe handler (one atomic add) for SIGUSR1.
+    unsafe {
+        let mut sa: libc::sigaction = std::mem::zeroed();
+        sa.sa_sigaction = on_sig as *const () as usize;
+        sa.sa_flags = 0; // no SA_RESTART: blocked calls come back interrupted / short
+        libc::sigemptyset(&mut sa.sa_mask);
+        libc::sigaction(libc::SIGUSR1, &sa, std::ptr::null_mut());
+    }
+    let me = unsafe { libc::pthread_self() } as usize;
+    let pause = std::time::Duration::from_millis(25);
+    let mut n = 0u64;
+    let mut interrupted_runs = 0u64;
+    #[derive(Clone, Copy, Debug)]
+    enum Chan {
+        Unix,
+        Tcp,
+        UnixAsOwnedFd,
+        Pipe,
+    }
+    // ---- reading side: the message arrives in two (or three) parts with a signal in between
+    let small = Rig::new();
+    for chan in [Chan::Unix, Chan::Tcp, Chan::UnixAsOwnedFd, Chan::Pipe] {
+        for t in [Target::Slice, Target::Region, Target::GuestTwoRegions] {
+            for first in [1usize, 3] {
+                let (off, run) = small.geometry(t);
+                let count = run.min(8);
+                if first >= count {
+                    continue;
+                }
+                small.reset();
+                let before = small.linear(t);
+                let data: Vec<u8> = (0..count + 4).map(src_byte).collect();
+                let h0 = HANDLED.load(Ordering::SeqCst);
+                // (reader end, writer end)
+                let send = |mut w: Box<dyn Write + Send>, data: Vec<u8>| {
+                    std::thread::spawn(move || {
+                        let _ = w.write_all(&data[..first]);
+                        let _ = w.flush();
+                        std::thread::sleep(pause);
+                        // SAFETY: `me` is the main thread, alive for the whole program.
+                        unsafe { libc::pthread_kill(me as libc::pthread_t, libc::SIGUSR1) };
+                        std::thread::sleep(pause);
+                        let _ = w.write_all(&data[first..]);
+                        let _ = w.flush();
+                        w
+                    })
+                };
+                let (outc, rest) = match chan {
+                    Chan::Unix | Chan::UnixAsOwnedFd => {
+                        let (mut a, b) = UnixStream::pair().unwrap();
+                        let th = send(Box::new(b), data.clone());
+                        let outc = if matches!(chan, Chan::Unix) {
+                            small.read_from(t, Entry::ReadExact, &mut a, count)
+                        } else {
+                            let mut fd: std::os::fd::OwnedFd = a.try_clone().unwrap().into();
+                            small.read_from(t, Entry::ReadExact, &mut fd, count)
+                        };
+                        drop(th.join());
+                        let mut rest = vec![];
+                        let _ = a.read_to_end(&mut rest);
+                        (outc, rest)
+                    }
+                    Chan::Tcp => {
+                        let Ok(l) = std::net::TcpListener::bind("127.0.0.1:0") else {
+                            out::note("c14-signals-no-loopback-tcp", J::s("TcpStream legs skipped".to_string()));
+                            continue;
+                        };
+                        let b = std::net::TcpStream::connect(l.local_addr().unwrap()).unwrap();
+                        let _ = b.set_nodelay(true);
+                        let (mut a, _) = l.accept().unwrap();
+                        let th = send(Box::new(b), data.clone());
+                        let outc = small.read_from(t, Entry::ReadExact, &mut a, count);
+                        drop(th.join());
+                        let mut rest = vec![];
+                        let _ = a.read_to_end(&mut rest);
+                        (outc, rest)
+                    }
+                    Chan::Pipe => {
+                        let mut fds = [0i32; 2];
+                        // SAFETY: plain pipe(2).
+                        assert_eq!(unsafe { libc::pipe(fds.as_mut_ptr()) }, 0);
+                        use std::os::fd::FromRawFd;
+                        // SAFETY: fresh descriptors owned from here on.
+                        let (mut a, b) = unsafe { (std::fs::File::from_raw_fd(fds[0]), std::fs::File::from_raw_fd(fds[1])) };
+                        let th = send(Box::new(b), data.clone());
+                        let outc = small.read_from(t, Entry::ReadExact, &mut a, count);
+                        drop(th.join());
+                        let mut rest = vec![];
+                        let _ = a.read_to_end(&mut rest);
+                        (outc, rest)
+                    }
+                };
+                let got_signal = HANDLED.load(Ordering::SeqCst) > h0;
+                interrupted_runs += got_signal as u64;
+                let after = small.linear(t);
+                let stored_ok = after[off..off + count] == data[..count];
+                let frame_ok = after.iter().enumerate().all(|(i, b)| (i >= off && i < off + count) || *b == before[i]);
+                if !matches!(outc, Outcome::Ok(k) if k == count) || !stored_ok || !frame_ok || rest != data[count..] {
+                    v(&format!("signal-between-fragments/{:?}/exact-read-did-not-complete", chan), t, Entry::ReadExact, &[], count, jobj! {"first_fragment" => first, "outcome" => J::dbg(&outc), "guest_holds_the_message" => stored_ok, "frame_ok" => frame_ok, "left_in_stream" => rest.len(), "expected_left" => data.len() - count, "signal_handler_ran" => got_signal});
+                }
+                out::key(&format!("signal-between-fragments|read|{:?}|{:?}|first{}|handler-ran={}", chan, t, first, got_signal), true);
+                out::eval(1);
+                n += 1;
+            }
+        }
+    }
+    // ---- writing side: a sink that blocks (tiny socket buffer), the peer drains a little, the
+    // signal arrives while the writer is blocked mid-transfer, then the peer drains the rest
+    let big = Rig::new_big();
+    for t in [Target::Slice, Target::Region, Target::GuestTwoRegions] {
+        let (off, run) = big.geometry(t);
+        let count = run.min(0x11000);
+        big.reset();
+        let before = big.linear(t);
+        let (mut a, b) = UnixStream::pair().unwrap();
+        let sz: libc::c_int = 4096;
+        // SAFETY: setsockopt on our own descriptors with a properly sized int.
+        unsafe {
+            libc::setsockopt(a.as_raw_fd(), libc::SOL_SOCKET, libc::SO_SNDBUF, &sz as *const _ as *const libc::c_void, 4);
+            libc::setsockopt(b.as_raw_fd(), libc::SOL_SOCKET, libc::SO_RCVBUF, &sz as *const _ as *const libc::c_void, 4);
+        }
+        let h0 = HANDLED.load(Ordering::SeqCst);
+        let th = std::thread::spawn(move || {
+            let mut b = b;
+            let mut got = vec![0u8; 1000];
+            let _ = b.read_exact(&mut got);
+            for _ in 0..3 {
+                std::thread::sleep(pause);
+                // SAFETY: as above.
+                unsafe { libc::pthread_kill(me as libc::pthread_t, libc::SIGUSR1) };
+                std::thread::sleep(pause);
+                let mut more = vec![0u8; 3000];
+                let _ = b.read_exact(&mut more);
+                got.extend_from_slice(&more);
+            }
+            let _ = b.read_to_end(&mut got);
+            got
+        });
+        let outc = big.write_to(t, Entry::WriteAll, &mut a, count);
+        drop(a);
+        let got = th.join().unwrap();
+        let got_signal = HANDLED.load(Ordering::SeqCst) > h0;
+        interrupted_runs += got_signal as u64;
+        if !matches!(outc, Outcome::Ok(k) if k == count) || got != before[off..off + count] || big.linear(t) != before {
+            let first_diff = got.iter().zip(before[off..].iter()).position(|(x, y)| x != y);
+            v("signal-between-fragments/write-all-did-not-complete", t, Entry::WriteAll, &[], count, jobj! {"outcome" => J::dbg(&outc), "peer_received" => got.len(), "first_difference" => J::dbg(&first_diff), "signal_handler_ran" => got_signal});
+        }
+        out::key(&format!("signal-between-fragments|write|{:?}|handler-ran={}", t, got_signal), true);
+        out::eval(1);
+        n += 1;
+    }
+    // SAFETY: back to the default disposition... no: keep ignoring further SIGUSR1 (a late one must not kill us).
+    unsafe { libc::signal(libc::SIGUSR1, libc::SIG_IGN) };
+    out::count("signal_between_fragments_transfers", n as i128);
+    out::count("signal_between_fragments_handler_ran", interrupted_runs as i128);
+}
+
 /// Real descriptors: the same scripts through the interposed read(2)/write(2) on a pipe.
 fn fd_replay(args: &Args) {
     if !interpose::available() {
@@ -741,6 +913,10 @@ pub fn run(args: &Args) {
         long_runs(args);
         interruption_storms(args);
         cursor_conservation(args);
+    }
+    #[cfg(not(miri))]
+    if let Err(p) = guarded(|| signals_between_fragments(args)) {
+        out::viol(&format!("C14/panic/signals/{}", panic_sig(&p)), J::s(p));
     }
     if args.shard().0 == 0 {
         fd_replay(args);
